@@ -88,7 +88,8 @@ def var_value(draw, kind, k, layer, higher):
     if kind == "s":
         form = draw(st.sampled_from(["lit", "ref", "ref", "ref", "ref2"])) if higher else "lit"
         if form == "lit":
-            return tag
+            # values are substituted verbatim: backslashes (regular expressions, printf formats, Windows paths) included
+            return tag + draw(st.sampled_from(["", "", "", "", "\\d+", "\\\\srv\\x", "_\\n_\\t", "\\1", "\\g<0>"]))
         a = draw(st.sampled_from(higher))[0]
         if form == "ref":
             return draw(st.sampled_from([tag + "-" + _ref(a), _ref(a) + "-" + tag, _ref(a)]))
